@@ -7,6 +7,10 @@ pub mod facts;
 pub mod gen;
 pub mod mon_c01;
 pub mod mon_c03;
+pub mod mon_c08;
+pub mod mon_c09;
+pub mod mon_c10;
+pub mod mon_recovery;
 pub mod mon_c12;
 pub mod net;
 pub mod rec;
@@ -57,6 +61,32 @@ pub fn registry() -> Vec<Property> {
                packet arrived during the closing period). Distinct = distinct scenarios.",
         assumptions: &["frames are decoded by the harness's own RFC 9000 parser (wire.rs)"],
         subs: mon_c12::subs(),
+        shards: 0,
+    },
+    Property {
+        id: "C08",
+        rule: "end-to-end: lossy/reordering/duplicating scenarios with generated max_ack_delay and ack-range limits; every ACK frame sent is \
+               compared with the packets the endpoint's frame processing really saw, deadlines for acknowledging ack-eliciting packets, packet \
+               numbers monotone. Non-trivial: the receive history has >=2 gaps, >=1 reordered ack-eliciting packet and >=1 lost ACK-carrying datagram.",
+        assumptions: &["frames are decoded by the harness's own RFC 9000 parser (wire.rs)", "promptness is only asserted after handshake confirmation and before closing"],
+        subs: { let mut v = comp::c08_pn::subs(); v.extend(mon_c08::subs()); v },
+        shards: 0,
+    },
+    Property {
+        id: "C09",
+        rule: "end-to-end: event stream of running endpoints (packet_sent, ack_range_received, packet_lost, recovery_metrics, key_space_discarded) \
+               cross-checked with the frames on the wire: RFC 9002 6.1 re-evaluated at each declared loss, exact bytes-in-flight ledger at every \
+               recovery_metrics event, PTO spacing doubling. Non-trivial: trace has a loss by packet threshold, one by time threshold and a PTO expiry.",
+        assumptions: &["events are the code's own reports, cross-checked against wire frames", "in-flight ledger only while a single path exists"],
+        subs: { let mut v = comp::c09_recovery::subs(); v.extend(mon_c09::subs()); v },
+        shards: 0,
+    },
+    Property {
+        id: "C10",
+        rule: "end-to-end: at every packet_sent of a congestion-controlled packet the harness's own in-flight ledger is compared with the \
+               congestion window of the latest recovery_metrics. Non-trivial: the sender was within one datagram of its window and saw a loss.",
+        assumptions: &["allowances: transmission mode other than Normal (PTO probe, MTU probe, path validation) and the first packet after a declared loss"],
+        subs: { let mut v = comp::c10_cc::subs(); v.extend(mon_c10::subs()); v },
         shards: 0,
     }]
 }
